@@ -35,7 +35,7 @@ ASSUMPTIONS = [
     "X25519 ephemerals of both sides come from a counter-based generator (third-party boundary) so a case is reproducible",
 ]
 EXHAUSTIVE_NOTE = "name table (5 announced x 5 expected) x {one chunk, hello|handshake split, byte-at-a-time}; all 1-cut segmentations of a 4-message session"
-BUDGET = {"quick": {"examples": 500, "shards": 4}, "thorough": {"examples": 8000, "shards": 16}}
+BUDGET = {"quick": {"examples": 500, "shards": 4}, "thorough": {"examples": 8000, "shards": 16, "fuzz": {"procs": 4, "runs": 15000}}}
 FLOORS = {"handshake_and_data_share_chunk": 0.15, "cut_inside_header": 0.3, "name_rejected": 0.08, "split_then_shorter_frame": 0.05}
 
 
